@@ -39,6 +39,10 @@ static int read_varint(const uint8_t* data, size_t size, size_t* pos, uint32_t* 
 }
 
 static bool start_new_run(carquet_rle_decoder_t* dec) {
+    /* Empty runs are legal and simply skipped. Skip them in a loop: one
+     * recursive call per empty run lets a page of zero bytes (each one is an
+     * empty RLE run) exhaust the stack. */
+next_run:
     if (dec->pos >= dec->size) {
         return false;
     }
@@ -57,7 +61,7 @@ static bool start_new_run(carquet_rle_decoder_t* dec) {
 
         if (dec->run_remaining == 0) {
             /* Empty run, try next */
-            return start_new_run(dec);
+            goto next_run;
         }
 
         /* Read the repeated value (ceil(bit_width/8) bytes) */
@@ -80,7 +84,7 @@ static bool start_new_run(carquet_rle_decoder_t* dec) {
         dec->run_remaining = (int64_t)num_groups * 8;
 
         if (dec->run_remaining == 0) {
-            return start_new_run(dec);
+            goto next_run;
         }
 
         /* We'll decode 8 values at a time into the buffer */
